@@ -540,6 +540,14 @@ func (e *ivalEval) bv(t *Term) int8 {
 			}
 		}
 	case OpULt, OpULe, OpSLt, OpSLe:
+		if t.op == OpULt || t.op == OpULe {
+			// the unsigned overflow idiom "x+y < x" (and its three relatives):
+			// decided by whether the sum can wrap
+			if d := e.wrapIdiom(t); d >= 0 {
+				r = d
+				break
+			}
+		}
 		a, b := e.iv(t.a[0]), e.iv(t.a[1])
 		w := t.a[0].sort
 		if t.op == OpSLt || t.op == OpSLe {
@@ -567,6 +575,56 @@ func (e *ivalEval) bv(t *Term) int8 {
 	}
 	e.bmem[t.id] = r
 	return r
+}
+
+// wrapIdiom decides comparisons between a sum and one of its operands when
+// the operand ranges show that the sum cannot wrap around.
+func (e *ivalEval) wrapIdiom(t *Term) int8 {
+	l, rr := t.a[0], t.a[1]
+	sumLeft := true
+	sum, x := l, rr
+	if !(sum.op == OpAdd && (sum.a[0] == x || sum.a[1] == x)) {
+		sum, x = rr, l
+		sumLeft = false
+		if !(sum.op == OpAdd && (sum.a[0] == x || sum.a[1] == x)) {
+			return -1
+		}
+	}
+	y := sum.a[0]
+	if y == x {
+		y = sum.a[1]
+	}
+	w := x.sort
+	if w == SortBool || w == SortInt || w > 64 {
+		return -1
+	}
+	xi, yi := e.iv(x), e.iv(y)
+	s := xi.hi + yi.hi
+	if s < xi.hi || s > mask(w) {
+		return -1 // may wrap
+	}
+	// no wrap: sum = x + y >= x, and sum > x iff y > 0
+	switch {
+	case sumLeft && t.op == OpULt: // x+y < x
+		return 0
+	case sumLeft && t.op == OpULe: // x+y <= x  iff y == 0
+		if yi.lo > 0 {
+			return 0
+		}
+		if yi.hi == 0 {
+			return 1
+		}
+	case !sumLeft && t.op == OpULe: // x <= x+y
+		return 1
+	case !sumLeft && t.op == OpULt: // x < x+y  iff y > 0
+		if yi.lo > 0 {
+			return 1
+		}
+		if yi.hi == 0 {
+			return 0
+		}
+	}
+	return -1
 }
 
 // ivalDecide returns 1/0 if the interval layer shows c is always true/false
